@@ -14,6 +14,20 @@
 (*          size                    Size() AFTER the call                  *)
 (*   Proj   keys vals               full enumeration (every 16 events and  *)
 (*                                  at the end of a history)               *)
+(*   New                            one more (empty) object of the type is *)
+(*                                  constructed and held                   *)
+(*   Swap   h                       calls go to held object h from now on  *)
+(*   PutAllFrom h                   put-all with held object h (0: the     *)
+(*                                  object itself) as the argument         *)
+(*   HProj  h keys vals hsize       full enumeration and Size() of held    *)
+(*                                  object h                               *)
+(*   RoundTrip ... hold             (hold) the map written stays alive as  *)
+(*                                  one more held object                   *)
+(*   Hold   of seq                  the slice the previous call returned   *)
+(*                                  (of = "ret") / was given (of = "arg")  *)
+(*                                  stays in the caller's hands, read now  *)
+(*   Held   a seq                   slice a read again                     *)
+(*   Scribble a seq                 the caller overwrote slice a with seq  *)
 (*                                                                         *)
 (* Keys are ranks in the history's sorted key pool, results are tuples     *)
 (* (<<v>> or the type's "absent"), see PlainMap.  Enumerations are judged  *)
@@ -51,7 +65,7 @@ Obs == Has(e, "size") /\ e.size = Cardinality(DOMAIN m')
 
 TraceReset == /\ Step("Reset")
               /\ Has(e, "t") /\ Has(e, "ek") /\ e.t \in DOMAIN TypeCfg
-              /\ m' = EmptyFn
+              /\ m' = EmptyFn /\ held' = <<>> /\ arrs' = <<>>
               /\ IF Has(e, "none")
                  THEN e.t = "IntIntMap" /\ Len(e.none) = 1 /\ cfg' = CfgOf(e.t, e.ek, e.none)
                  ELSE cfg' = CfgOf(e.t, e.ek, TypeCfg[e.t].none)
@@ -112,6 +126,27 @@ TraceEntries == Step("Entries") /\ Has(e, "pairs") /\ EntriesBagOK(e.pairs) /\ R
 TraceProj == /\ Step("Proj") /\ Has(e, "keys") /\ Has(e, "vals")
              /\ ProjOK(e.keys, e.vals) /\ ReadOnly /\ Obs
 
+\* ---- several live objects; slices in the caller's hands ----------------------------
+TraceNew  == Step("New") /\ NewObj /\ Obs
+TraceSwap == Step("Swap") /\ Has(e, "h") /\ Swap(e.h) /\ Obs
+TracePutAllFrom == Step("PutAllFrom") /\ Has(e, "h") /\ IsMapT /\ PutAllFrom(e.h) /\ Obs
+\* the complete enumeration and the size of a held object: what it was when the
+\* calls moved on to another object
+TraceHProj == /\ Step("HProj") /\ Has(e, "h") /\ Has(e, "keys") /\ Has(e, "vals") /\ Has(e, "hsize")
+              /\ e.h \in 1..Len(held)
+              /\ ProjOKOf(held[e.h], e.keys, e.vals)
+              /\ e.hsize = Cardinality(DOMAIN held[e.h])
+              /\ ReadOnly /\ Obs
+\* the slice of the previous event is kept: it holds what that call answered
+\* ("ret": its seq) or was given ("arg": its ks -- the call did not write into it)
+TraceHold == /\ Step("Hold") /\ Has(e, "of") /\ Has(e, "seq") /\ l > 1
+             /\ CASE e.of = "ret" -> Has(Trace[l - 1], "seq") /\ e.seq = Trace[l - 1].seq
+                  [] e.of = "arg" -> Has(Trace[l - 1], "ks") /\ e.seq = Trace[l - 1].ks
+                  [] OTHER -> FALSE
+             /\ ArrHold(e.seq) /\ Obs
+TraceHeld == Step("Held") /\ Has(e, "a") /\ Has(e, "seq") /\ ArrIs(e.a, e.seq) /\ ReadOnly /\ Obs
+TraceScribble == Step("Scribble") /\ Has(e, "a") /\ Has(e, "seq") /\ ArrWrite(e.a, e.seq) /\ Obs
+
 \* re-bucketing the table in the order of a comparator: the map is the same map
 TraceSort == Step("Sort") /\ Has(e, "dir") /\ ReadOnly /\ Obs
 \* rendering: one "key=value" / element item per stored entry
@@ -129,9 +164,12 @@ TraceToBytes == /\ Step("ToBytes") /\ Has(e, "kv") /\ Has(e, "bytes")
 \* ToBytes then ToObject into a fresh map, which REPLACES the object under test:
 \* it must be an equal map (keys, vals = its full enumeration) and behave as one
 \* in everything that follows
+\* (hold: the map that was written stays alive as one more held object)
 TraceRoundTrip == /\ Step("RoundTrip") /\ Has(e, "keys") /\ Has(e, "vals")
                   /\ cfg.t = "IntIntMap"
-                  /\ ProjOK(e.keys, e.vals) /\ ReadOnly /\ Obs
+                  /\ ProjOK(e.keys, e.vals)
+                  /\ IF Has(e, "hold") /\ e.hold = TRUE THEN Fork ELSE ReadOnly
+                  /\ Obs
 
 TraceNext ==
   ( \/ TraceReset
@@ -140,7 +178,8 @@ TraceNext ==
     \/ TraceRemove \/ TraceClear
     \/ TraceKeys \/ TraceKeyArray \/ TraceValues \/ TraceValueArray \/ TraceEntries \/ TraceProj
     \/ TraceSort \/ TraceToString \/ TraceToFormatString
-    \/ TraceToBytes \/ TraceRoundTrip )
+    \/ TraceToBytes \/ TraceRoundTrip
+    \/ TraceNew \/ TraceSwap \/ TracePutAllFrom \/ TraceHProj \/ TraceHold \/ TraceHeld \/ TraceScribble )
   /\ InvAll'
 
 TraceSpec == TraceInit /\ [][TraceNext]_tvars
